@@ -8,6 +8,7 @@ package corazawaf
 import (
 	"reflect"
 	"sort"
+	"strconv"
 	"unsafe"
 
 	"github.com/corazawaf/coraza/v3/collection"
@@ -85,6 +86,10 @@ func (tx *Transaction) VerifVariablesDump() map[string][]string {
 			entries = append(entries, md.Key()+"="+md.Value())
 		}
 		sort.Strings(entries)
+		if l, ok := val.(interface{ Len() int }); ok {
+			// number of keys the collection holds, including keys left without values
+			entries = append(entries, "#keys="+strconv.Itoa(l.Len()))
+		}
 		out[t.Field(i).Name] = entries
 	}
 	return out
